@@ -109,6 +109,11 @@ function genOpExpr (rng, ctx, d, label, nested) {
       const mk = () => rng.chance(1, 2) ? { t: 'probe', site: P.nextSite++ } : genOpExpr(rng, ctx, d - 1, label, true)
       return { t: 'cond', site: P.nextSite++, cons: mk(), alt: mk() }
     }
+    if (d > 0 && P.known && rng.chance(1, 8)) {
+      // a function expression passed as an argument inside the instrumented expression, called back
+      // synchronously; its parameter default holds an instrumented operation of its own
+      return { t: 'fnarg', site: P.nextSite++, def: genOpExpr(rng, ctx, 0, 'param-default:function-expression-argument', true) }
+    }
     if (d > 0 && rng.chance(1, 3)) return genOpExpr(rng, ctx, d - 1, label, true)
     if (f.isGen && rng.chance(1, 3)) return { t: 'yield', site: P.nextSite++ }
     if (f.isAsync && rng.chance(1, 3)) return { t: 'await', site: P.nextSite++ }
@@ -166,7 +171,7 @@ function render (P) {
   }
   function altsOf (e) {
     switch (e.t) {
-      case 'probe': case 'yield': case 'await': return [[e.site]]
+      case 'probe': case 'yield': case 'await': case 'fnarg': return [[e.site]]
       case 'optcall': return [[e.site]]
       case 'cond': return altsOf(e.cons).concat(altsOf(e.alt))
       case 'plus': case 'tpl': return cat(e.ops.map(altsOf))
@@ -191,6 +196,7 @@ function render (P) {
       case 'probe': return `$.p(${A}, ${e.site})`
       case 'yield': return `(yield $.y(${A}, ${e.site}))`
       case 'await': return `(await $.d(${A}, ${e.site}))`
+      case 'fnarg': return `$.k(${A}, ${e.site}, function (a2, p = ${ex(e.def, 'a2')}) { return p; })`
       case 'cond': return `($.c(${A}, ${e.site}) ? ${ex(e.cons, A)} : ${ex(e.alt, A)})`
       case 'plus': {
         const parts = e.ops.map(o => ex(o, A))
